@@ -139,6 +139,7 @@ type ReplayFile struct {
 	Seed     uint64                    `json:"seed"`
 	Tier     string                    `json:"tier"`
 	Regen    bool                      `json:"regenerate_scenario_from_seed,omitempty"`
+	SeedTape bool                      `json:"tapes_from_seed,omitempty"` // draw the tapes from the seed (the run died before it could record them)
 	FixedIdx int                       `json:"fixed_index,omitempty"`
 	Scenario json.RawMessage           `json:"scenario"`
 	Tapes    map[string]simrt.TapeData `json:"tapes"`
@@ -254,7 +255,8 @@ func Main(props map[string]*Prop) int {
 			sc = p.Gen(r, tier)
 		}
 		if out != "" {
-			os.WriteFile(journal, []byte(fmt.Sprintf(`{"property":%q,"seed":%d,"tier":%q,"index":%d,"fixed_index":%d}`, id, seed, tier, i, fixedIdx)), 0644)
+			scj, _ := json.Marshal(sc)
+			os.WriteFile(journal, []byte(fmt.Sprintf(`{"property":%q,"seed":%d,"tier":%q,"index":%d,"fixed_index":%d,"scenario":%s}`, id, seed, tier, i, fixedIdx, scj)), 0644)
 		}
 		c := &Ctx{Tapes: simrt.NewTapeSet(seed, nil), St: res.Stats, Tier: tier}
 		v := p.Exec(sc, c)
@@ -476,6 +478,9 @@ func replay(p *Prop, path string, res *Result) int {
 			tapes = map[string]simrt.TapeData{}
 		}
 		ts = simrt.NewTapeSet(rf.Seed, tapes)
+		if rf.SeedTape {
+			ts = simrt.NewTapeSet(rf.Seed, nil)
+		}
 	}
 	c := &Ctx{Tapes: ts, St: res.Stats, Tier: tier, Trace: true}
 	v := p.Exec(sc, c)
